@@ -663,6 +663,10 @@ func genCase(g *mt.Gen, site string) rcase {
 			// map / repeated field, among others; sometimes below a field the message populates
 			bad, _ := corruptionsOf(md).draw(g)
 			c.Mask.Paths[g.R.Intn(len(c.Mask.Paths))] = bad
+			if g.R.Intn(3) != 0 {
+				populateAlong(g, msg.ProtoReflect(), bad) // the mask meets data where it goes wrong
+				c.Msg, c.MsgText = mt.EncodeMsg(msg), mt.CanonMsg(msg)
+			}
 		}
 	}
 	if repPath != "" && !c.Mask.Nil {
@@ -974,6 +978,8 @@ func main() {
 			ocs = ocs[:0]
 		}
 	}
+	// WithReadPaths over the descriptor-derived corruption family (corrupt.go): a sample by kind, thorough: all of it
+	runOptionCases(corruptSweep(g, 160, f.Thorough()), otie, omon, drv)
 	// trait-level readers that compose a response and project it
 	ctie := res.Tie("composed-readers", "K1",
 		"every trait-level reader that composes its response and then projects it, or pages over stored items and projects the page (openclosepb Model/ModelServer GetPositions and Model.PullPositions with derived presets; ListModes, ListHails, ListPublications, ListConsumables, ListInventory, ListChildren, ListBookings, ListWasteRecords) and the server-streaming Pull RPC of each of those services through the in-process wrapper (PullPositions, PullModes, PullHails, PullPublications, PullConsumables, PullInventory, PullChildren, PullBookings, PullWasteRecords: every seed value under the mask vs the same stream without a mask; and, for the eight List/Pull services, the UPDATES: an unmasked and a masked client stream open on the same instance while 2-4 items are created / updated / deleted through the model, each write followed by a marker item: every change of the masked stream, old and new value, vs the change the unmasked stream delivers for the same write), on freshly generated populated instances: masked read vs the Lean filter of the UNMASKED read of the same instance; masks: nil, empty, every single path of the item's path tree to depth 2 (through repeated messages too), parent+child in both orders, unknown paths, random 1-3 paths to depth 3; subscriptions: seed + 2-4 single stored changes, an event is due exactly when the projection changes; non-trivial = non-empty mask; distinct by (reader, instance seed, mask)")
